@@ -21,6 +21,7 @@ PROP = dict(
         dict(name="exhaustive", pkg="c15", run="^TestC15_Exhaustive$", rapid=False, shards=HASHES, seeds=(8, 16),
              timeout=(600, 3000)),
         dict(name="machine", pkg="c15", run="^TestC15_Machine$", shards=HASHES, checks=(30000, 400000), seeds=(2, 4)),
+        dict(name="rejected", pkg="c15", run="^TestC15_RejectedBinding$", checks=(5000, 100000)),
         dict(name="dupnames", pkg="c15", run="^TestC15_DuplicateNames$", checks=(5000, 50000)),
         dict(name="regress", pkg="c15", run="^TestC15_(Anchor|Regress.*)$", rapid=False),
     ],
